@@ -332,7 +332,9 @@ rc::Gen<fcase_t> gen_fcase()
             else
             {
                 c.lambda = *rc::gen::container<std::vector<double>>(8, gen_coef(c.integers, 10.0));
-                c.miu    = *rc::gen::container<std::vector<double>>(8, c.integers ? gen::smallint(0, 10) : gen::real(0.0, 10.0));
+                // "any multiplier values": mostly mu >= 0 (what the solver maintains), a third of the cases with negative entries too
+                c.miu = *gen::chance(33) ? *rc::gen::container<std::vector<double>>(8, gen_coef(c.integers, 10.0))
+                                         : *rc::gen::container<std::vector<double>>(8, c.integers ? gen::smallint(0, 10) : gen::real(0.0, 10.0));
             }
             return c;
         });
@@ -517,7 +519,7 @@ verdict_t check_fcase(const fcase_t& c, ctx_t& ctx)
     }
     for (size_t i = 0; i < 8; ++i)
     {
-        if (!(std::fabs(c.lambda[i]) <= 10.0) || !(c.miu[i] >= 0.0 && c.miu[i] <= 10.0))
+        if (!(std::fabs(c.lambda[i]) <= 10.0) || !(std::fabs(c.miu[i]) <= 10.0))
         {
             return verdict_t::discard("multiplier-outside-domain");
         }
